@@ -31,7 +31,7 @@ BUDGET_S = {"quick": 150, "thorough": 1800}
 RULE = ("alphabet of 23 actions: {viewer, sim} x {reliable, unreliable} x {no acks, appended acks for everything seen, "
         "appended ack for the oldest seen}, standalone PacketAck {all, oldest, oldest+appended rest} per side, proxy "
         "injections {out, in} x {reliable, unreliable}, drop-next toggle, clock +1 s, clock +3 s (resend interval) each "
-        "followed by resend_unacked(). Exhaustive DFS with (implementation, model) state hashing to depth 4 (quick) / 5 "
+        "followed by resend_unacked(). Exhaustive DFS with (implementation, model) state hashing to depth 4 (quick) / 6 "
         "(thorough) + random walks of 200 events (half of them timer-heavy: several injected reliable packets outstanding, 1 s clock steps) at circuit level, + random walks of 120 events with the same actions and model through the real proxy protocol (real datagrams via datagram_received and the SOCKS transport, drops performed by an addon). distinct_nontrivial = distinct hashed states with at least one injection "
         "or drop")
 ASSUMPTIONS = [
@@ -587,7 +587,7 @@ def run(ctx):
     except Exception:
         loop = asyncio.new_event_loop()
         asyncio.set_event_loop(loop)
-    depth = ctx.pick(4, 5)
+    depth = ctx.pick(4, 6)
     firsts = [a for i, a in enumerate(ACTIONS) if ctx.mine(i)]
     n = dfs(ctx, depth, firsts, tries=3)
     ctx.flag("exhaustive", True)
